@@ -404,6 +404,7 @@ def run(ctx):
             src = list(build.universe(cls, sig, doms, depth, 3))
             if ctx.quick and cls == "rigid":
                 src = [r for r in src if len(r[2]) <= 1] + [r for r in src if len(r[2]) == 2][::3]
+                ctx.cap_hit("rigid source diagrams of depth 2 every 3rd (depth <= 1 complete)")
         ctx.count("states", len(src))
         ctx.note("sizes", "%s: %d functors x %d diagrams" % (cls, len(fs), len(src)))
         for f in fs:
